@@ -19,21 +19,26 @@ use anyhow::{Context, bail};
 use scion_protobuf::control_plane::v1::{ServiceResolutionResponse, Transport};
 use sciparse::{
     address::{addr::ScionAddr, socket_addr::ScionSocketAddr},
-    core::{model::Model, view::View},
+    checksum::ChecksumDigest,
+    core::{convert::TryFromView, model::Model, view::View},
     dataplane_path::view::ScionDpPathViewExt,
+    header::model::AddressHeader,
     identifier::isd_asn::IsdAsn,
     packet::{
         classify::ClassifiedPacketView,
         model::{ScionRawPacket, ScionScmpPacket, ScionUdpPacket},
         view::ScionRawPacketView,
     },
-    payload::scmp::{
-        model::{
-            ScmpDestinationUnreachable, ScmpEchoReply, ScmpErrorMessage, ScmpMessage,
-            ScmpParameterProblem, ScmpTracerouteReply,
+    payload::{
+        ProtocolNumber,
+        scmp::{
+            model::{
+                ScmpDestinationUnreachable, ScmpEchoReply, ScmpErrorMessage, ScmpMessage,
+                ScmpParameterProblem, ScmpTracerouteReply,
+            },
+            types::{ScmpDestinationUnreachableCode, ScmpParameterProblemCode},
+            view::{ScmpMessageExt, ScmpMessageView},
         },
-        types::{ScmpDestinationUnreachableCode, ScmpParameterProblemCode},
-        view::{ScmpMessageExt, ScmpMessageView},
     },
 };
 use tracing::info_span;
@@ -338,6 +343,25 @@ impl LocalNetworkSimulation<'_> {
         let request = packet
             .try_as_scmp()
             .context("error classifying SCION packet for SCMP response")?;
+
+        // The router is the receiver of this request, so it has to verify the SCMP checksum. A
+        // truncated message or a message with a wrong checksum is malformed and is not answered.
+        let scmp_bytes = packet.payload();
+        if scmp_bytes.len() != usize::from(packet.header().payload_len()) {
+            bail!("SCMP request is truncated");
+        }
+        let address_header = AddressHeader::try_from_view(request.header())
+            .context("error decoding address header of SCMP request")?;
+        let checksum = ChecksumDigest::with_pseudoheader(
+            &address_header,
+            ProtocolNumber::Scmp.into(),
+            scmp_bytes,
+        )
+        .add_slice(scmp_bytes)
+        .checksum();
+        if checksum != 0 {
+            bail!("SCMP request has an invalid checksum");
+        }
 
         match request.scmp().message() {
             ScmpMessageView::EchoRequest(scmp_echo_request) => {
